@@ -4,9 +4,9 @@ CONSTANTS
   Rounds = 2
   PerRound = 1
   NotifyMode = "token"
-  TempApps = {1, 2}
-  TwoPhaseApps = {}
+  TempApps = {}
+  TwoPhaseApps = {2}
   ExitMode = "recheck"
-INVARIANTS FIFO DrainSound NoHang LockOK
+INVARIANTS FIFO DrainSound NoHang LockOK OneAtATime StageOK
 PROPERTIES FIFOStep DrainReturns
 CHECK_DEADLOCK FALSE
